@@ -88,7 +88,7 @@ var extraRules = map[string][]string{
 	"eof-witness":                {"C01", "C06"},
 	"code-nonzero":               {"C02", "C04", "C19"},
 	"non200-is-error":            {"C02", "C04"},
-	"carrier-pairing":            {"C02"},
+	"carrier-pairing":            {"C01", "C02"},
 	"holder-fresh":               {"C13"},
 	"bounded-read":               {"C01", "C03", "C04", "C07", "C08"},
 	"limit-wiring":               {"C01", "C02", "C07", "C15", "C19"},
@@ -100,7 +100,7 @@ var extraRules = map[string][]string{
 	"unary-second-receive":       {"C01", "C05", "C14"},
 	"content-type-codec-inverse": {"C01", "C05", "C07"},
 	"err-fields":                 {"C05", "C11", "C19"},
-	"multi-value":                {"C01", "C05", "C19"},
+	"multi-value":                {"C01", "C05", "C10", "C19"},
 	"wrap-once":                  {"C12"},
 	"receive-before-user":        {"C01"},
 	"close-once-after-accept":    {"C02", "C05", "C19", "C15"},
@@ -122,7 +122,7 @@ var extraRules = map[string][]string{
 	"end-stream-error-always-set":         {"C02", "C05", "C07", "C11", "C19"},
 	"wire-error-decode-complete":          {"C02", "C05", "C19"},
 	"any-not-rewrapped":                   {"C02", "C05", "C19"},
-	"unary-send-no-flush-on-failure":      {"C02", "C05"},
+	"unary-send-no-flush-on-failure":      {"C02", "C05", "C18"},
 	"spec-stamped-before-chain":           {"C12"},
 	"peer-text-quoted":                    {"C07"},
 	"omitted-field-deref":                 {"C02", "C04", "C06", "C07"},
@@ -141,7 +141,7 @@ var extraRules = map[string][]string{
 	"receive-error-looked-at-first":     {"C02", "C06"},
 	"trailers-only-iff-nothing-written": {"C05", "C11"},
 	"unexpected-eof-never-clean":        {"C04", "C07"},
-	"append-to-presized":                {"C02", "C19"},
+	"append-to-presized":                {"C02", "C05", "C19"},
 	"close-error-param-kept":            {"C02", "C19"},
 	"no-dynamic-format":                 {"C02", "C18"},
 	"grpc-message-always-encoded":       {"C02", "C05", "C18"},
@@ -154,9 +154,27 @@ var extraRules = map[string][]string{
 	// round-6 rules and sharing
 	"coded-read-error-kept":        {"C04", "C06", "C15"},
 	"body-read-failure-classified": {"C15", "C06"},
+	// round-9 rules and sharing
+	"procedure-same-fn":                                   {"C17"},
+	"wire-code-not-clamped":                               {"C02", "C06"},
+	"handler-receive-does-not-flush":                      {"C11", "C05"},
+	"error-encoders-do-not-write-the-error":               {"C13", "C02"},
+	"write-ignores-stored-error":                          {"C14", "C02"},
+	"rejections-leave-the-body-alone":                     {"C14", "C07"},
+	"gen-names-from-goname":                               {"C17"},
+	"gen-baseurl-trimright":                               {"C17"},
+	"code-text-only-names-and-code-n":                     {"C18", "C06"},
+	"status-message-verbatim":                             {"C19", "C02"},
+	"end-stream-trailers-before-error-meta":               {"C19", "C11", "C02"},
+	"read-max-option-verbatim":                            {"C09"},
+	"final-envelope-always-kept":                          {"C06", "C04"},
+	"short-payload-error-only-on-eof":                     {"C15", "C04"},
+	"response-trailers-always-merged":                     {"C11"},
+	"error-meta-copied-whole":                             {"C11", "C02"},
+	"connect-timeout-client-accepts-what-handler-accepts": {"C10"},
 	// round-8 rules and sharing
 	"timeout-header-from-deadline-only": {"C10"},
-	"closed-pipe-is-eof":                {"C15", "C14"},
+	"closed-pipe-is-eof":                {"C15", "C14", "C02"},
 	"newchain-keeps-elements-whole":     {"C16"},
 	"status-message-wins":               {"C02"},
 	"decompress-writes-through-limit":   {"C09", "C08"},
